@@ -344,8 +344,10 @@ func (s *Sim) notePanic(g *G, r interface{}, stack []byte) {
 		return
 	}
 	top := "?"
+	pref := ""
 	lines := strings.Split(string(stack), "\n")
-	// find the panic() frame, then the first frame below it that is not runtime/detsim
+	// find the panic() frame, then the first frame below it that is not
+	// runtime/detsim (top), and the first one inside a preferred package
 	seenPanic := false
 	for i := 0; i+1 < len(lines); i++ {
 		l := lines[i]
@@ -363,8 +365,19 @@ func (s *Sim) notePanic(g *G, r interface{}, stack []byte) {
 		if j := strings.LastIndex(fn, "("); j > 0 {
 			fn = fn[:j]
 		}
-		top = fn
-		break
+		if top == "?" {
+			top = fn
+		}
+		if pref == "" {
+			for _, p := range PanicFramePrefixes {
+				if strings.HasPrefix(fn, p) {
+					pref = fn
+				}
+			}
+		}
+	}
+	if pref != "" {
+		top = pref
 	}
 	if us, ok := r.(UserFail); ok {
 		s.violation = &Violation{Class: us.Class, Detail: us.Detail}
@@ -374,6 +387,10 @@ func (s *Sim) notePanic(g *G, r interface{}, stack []byte) {
 }
 
 type UserFail struct{ Class, Detail string }
+
+// PanicFramePrefixes: a panic is classified by the first stack frame whose
+// function name starts with one of these (else by the innermost user frame).
+var PanicFramePrefixes []string
 
 // park hands control to the scheduler and blocks until released.
 func (s *Sim) park(g *G) int {
